@@ -23,7 +23,17 @@ func init() {
 		Rule:        "REAL processes through the real TaskRunner / PgidExecutor / shell interpreter: every command is `pxcheck dumpenv`, which writes its complete environment (NUL separated) and its arguments (rendered template values) to stdout; the harness reads it back through FileOutputStore.Reader and compares, for 10 tracked names, value and presence with task-level ?: pipeline-level ?: process-level ?: unset; names are drawn so that every subset of the three levels defines some name, incl. process-only names that START WITH a job-level name or with TASK_NAME; values with spaces, both quote kinds, $X, backticks, '=', newlines, tabs, UTF-8 beyond BMP, 64 KiB, empty strings shadowing lower levels; a shell-level read (printf \"$N\") covers the interpreter's view; 1-3 pipelines x 2-5 jobs running concurrently with per-job template variables; a variable that only other jobs have must be a rendering error; a job passing the reserved identity variable must run nothing. A situation is the set of levels defining a name (T/P/X)",
 		Assumptions: []string{"template variables use a shell-safe alphabet (the renderer pastes text into shell source; quoting is not what the property is about)", "the process environment is global to the worker process: cases of one worker run one after the other"},
 		Cases:       func(t string) int { return tierN(t, 96, 2400) },
-		RunCase:     func(c *CaseCtx) *CaseResult { return simpleCase(c, drv.RunEnvCase(c.Seed, selfExe(), c.TmpDir), 24) },
+		RunCase: func(c *CaseCtx) *CaseResult {
+			if c.Idx < tierN(c.Tier, 1, 6) {
+				// the pipeline-level environment of a definition that arrives through the REAL reload path of the binary
+				bin := os.Getenv("PRUNNER_BIN")
+				if bin == "" {
+					return &CaseResult{Idx: c.Idx, Inconclusive: "PRUNNER_BIN not set (bin/check builds cmd/prunner from /repo)"}
+				}
+				return simpleCase(c, drv.RunReloadBinaryCase(c.Seed+int64(c.Idx), bin, c.TmpDir), 1)
+			}
+			return simpleCase(c, drv.RunEnvCase(c.Seed, selfExe(), c.TmpDir), 24)
+		},
 		MinDistinct: 6,
 	})
 	register(&Check{
